@@ -210,6 +210,9 @@ def run(ck):
     ck.floor("3", "post-action arms with an effect", len(rereg) + len(unreg_disable) + len(rem_stores), 3)
 
     who_may_defer(ck, "4", b)
+    from props import C06 as _C06x, common as _cmx
+
+    _cmx.import_results(ck, _C06x, "2", "dispatch_events", "3")
 
     # ---- clause 5: combination law --------------------------------------------------------------
     # decided by evaluating the MIR of `|` and `|=` on all 16 pairs of PostAction values (engine/bits/finite_eval.py):
